@@ -327,6 +327,11 @@ def c07_big_int_float(rec, params):
     if not pairs or rec.get('clause') != 'lossy':
         return False
     bad = [(s, t) for s, t in pairs if not _same07(s, t)]
+    if case.get('site') in ('series_from_list', 'series_from_list_rev', 'from_records') and \
+            any(s[0] in ('f', 'F', 'nan', 'c', 'inf') for s, t in pairs):
+        # iterables mixing a big int with a float are protected by prepare_iter_for_array (object dtype):
+        # a loss there is NOT the known design decision
+        return False
     def big_to_float(s, t):
         if s[0] != 'I':
             return False
